@@ -112,6 +112,16 @@ def add_prints_and_faults(rng, ns):
 def run_case(ctx, pydsdl, seed, nrep, workdir):
     rng = random.Random(seed)
     ns = GN.gen_namespace(rng, n_roots=rng.choice([2, 2, 3]))
+    if rng.random() < 0.45:
+        # the target's root namespace is defined partially in a second directory of the same name, given as a lookup: its
+        # definitions are lookup definitions like any other and stay outside the closure unless referenced
+        nm = ns["roots"][0]["name"]
+        ns["roots"].append({"dir": "partial/" + nm, "name": nm})
+        for k in range(rng.choice([1, 2])):
+            ns["defs"].append({"root": len(ns["roots"]) - 1, "ns": [rng.choice(["", "extra"])] if rng.random() < 0.5 else [], "short": "Partial%d" % k,
+                               "ver": (1, k), "port": None, "ext": ".dsdl", "id": 99000 + k, "refs": [], "kind": "msg", "sealed": True, "extent": None,
+                               "deprecated": False, "extra": []})
+            ns["defs"][-1]["ns"] = [x for x in ns["defs"][-1]["ns"] if x]
     faulty = add_prints_and_faults(rng, ns)
     base = (workdir / "c19").resolve()
     shutil.rmtree(base, ignore_errors=True)
